@@ -30,7 +30,7 @@ impl Scenario for C18 {
         "C18"
     }
     fn rule(&self) -> String {
-        "Seeded sessions: 1-4 publisher threads (20-150 messages each, bodies up to 2 frames) plus the owner opening a channel and publishing on it while throttled; in a fifth of the runs the server closes the only publishing channel while throttled and a channel is opened after the transport has drained; tuning drawn from mem_channel_bound in {0,1,2,16}, high-water in {1000, 8000, 64000}, low-water in {0, high/2}; 1-3 write stalls of 5-60 ms of simulated time during which the transport grants no budget, short writes in between. Oracle (a), only under I/O-atomic schedules (the I/O thread is not preempted inside one poll batch, because the code checks the high-water mark between batches): at every millisecond of every stall, bytes accepted from completed publish calls minus bytes written <= high_water + 2*N*(bound+1)*frame_max. Oracle (b), under all schedules: after the last stall every publisher finishes (else the hang detector names the lost wake-up) and the wire carries every accepted message exactly once, per channel in order (C01's wire oracle). Non-trivial = the throttle had to engage: total volume > 2x the bound of (a) and the stall outlasted the publishers' progress; distinct = schedule trace hash.".to_string()
+        "Seeded sessions: 1-4 publisher threads (20-150 messages each, bodies up to 2 frames) plus the owner opening a channel and publishing on it while throttled; in a fifth of the runs the server closes the only publishing channel while throttled and a channel is opened after the transport has drained; in a fifth the owner publishes into a final stall and closes the connection at once (backlog and Connection.Close wait in the sealed output buffer, the transport resumes in trickles); tuning drawn from mem_channel_bound in {0,1,2,16}, high-water in {1000, 8000, 64000}, low-water in {0, high/2}; 1-3 write stalls of 5-60 ms of simulated time during which the transport grants no budget, short writes in between. Oracle (a), only under I/O-atomic schedules (the I/O thread is not preempted inside one poll batch, because the code checks the high-water mark between batches): at every millisecond of every stall, bytes accepted from completed publish calls minus bytes written <= high_water + 2*N*(bound+1)*frame_max. Oracle (b), under all schedules: after the last stall every publisher finishes (else the hang detector names the lost wake-up) and the wire carries every accepted message exactly once, per channel in order (C01's wire oracle). Non-trivial = the throttle had to engage: total volume > 2x the bound of (a) and the stall outlasted the publishers' progress; distinct = schedule trace hash.".to_string()
     }
     fn assumptions(&self) -> Vec<String> {
         vec!["the numeric bound is asserted only under I/O-atomic schedules; under free schedules publishers can refill a channel while the I/O thread drains it, which the code does not bound (DESIGN.md §7 C18)".into()]
@@ -77,11 +77,22 @@ impl Scenario for C18 {
         }
         // the owner opens a channel while throttled and publishes on it
         let mut owner_ops = Vec::new();
+        let mut close_behind_backlog = false;
         if close_only_channel {
             let last = stalls.last().unwrap().1;
             owner_ops.push(OwnerOp::SleepNs(last + 5_000_000));
             owner_ops.push(OwnerOp::OpenChannel { id: None, keep: true });
             owner_ops.push(OwnerOp::PublishKept { nth: 0, count: 3, len: 500 });
+        } else if cs.choose("close_behind_backlog", 4) == 0 {
+            // the owner publishes into a stalled transport and closes the connection at once: the backlog and the
+            // Connection.Close sit in the (now sealed) output buffer while the peer is not reading; when it
+            // resumes, in short writes, everything accepted must still arrive exactly once and the close complete
+            close_behind_backlog = true;
+            owner_ops.push(OwnerOp::OpenChannel { id: None, keep: true });
+            owner_ops.push(OwnerOp::JoinWorkers);
+            owner_ops.push(OwnerOp::SleepNs(stalls.last().unwrap().1 + 1_000_000));
+            owner_ops.push(OwnerOp::StallFor(2_000_000 + cs.choose("final_stall_ms", 30) as u64 * 1_000_000));
+            owner_ops.push(OwnerOp::PublishKept { nth: 0, count: 1 + cs.choose("owner_msgs", 8) as usize, len: *pick(&mut cs, "owner_len", &[100usize, 700, 3000]) });
         } else if cs.choose("owner_channel", 2) == 1 {
             owner_ops.push(OwnerOp::SleepNs(stalls[0].0 + 2_000_000));
             owner_ops.push(OwnerOp::OpenChannel { id: None, keep: true });
@@ -96,8 +107,18 @@ impl Scenario for C18 {
         net.c2s_lat_min_ns = 1_000;
         net.c2s_lat_max_ns = 1_000;
         net.wr_short_permille = *pick(&mut cs, "wr_short", &[0u32, 300]);
+        if close_behind_backlog {
+            // the transport resumes in trickles
+            net.wr_cap = *pick(&mut cs, "wr_cap", &[0usize, 37, 500]);
+            net.wr_short_permille = *pick(&mut cs, "wr_short2", &[300u32, 700]);
+            net.wr_block_permille = *pick(&mut cs, "wr_block", &[0u32, 300]);
+            net.wr_block_max_ns = 200_000;
+        }
         let mut sched = SchedCfg::default();
         sched.stick_pct = *pick(&mut cs, "stick", &[50u32, 90, 0]);
+        if !io_atomic {
+            crate::gen::gen_pct(&mut cs, &mut sched, 4);
+        }
         sched.io_atomic = io_atomic;
         sched.hang_after_ns = 20_000_000_000;
         sched.step_cap = 1_500_000;
@@ -189,6 +210,7 @@ impl Scenario for C18 {
         rep.count("c18.max_outstanding_bytes", 0);
         rep.count("c18.throttle_engaged", engaged as u64);
         rep.count("c18.io_atomic_runs", io_atomic as u64);
+        rep.count("c18.close_behind_backlog_runs", close_behind_backlog as u64);
         // (when the server closed the publishing channel, what that channel had accepted is legitimately
         // dropped, so "accepted minus written" is not a buffer measure in that variant)
         if io_atomic && !close_only_channel && worst > limit {
